@@ -22,7 +22,7 @@ echo "|---|---|---|---|"
 } > "$OUT"
 # the rare large scenarios (giant blocks, populations / vectors beyond 16 bits, wide experiments, many inputs) sit
 # at particular run indices of the quick tier: they are audited too
-export VERIF_AUDIT_EXTRA="11,13,17,7,40013,80013,30017,60017,4321,104321,204321,77,40077,80077,120077,160077,19999,39999,59999,79999,4001,12001,20001,1249,3749,32349,349,1049,33249,80,81,82,83,84,85,86,87,1860,1861,1862,1863,2000000,1999999"
+export VERIF_AUDIT_EXTRA="11,13,17,7,40013,80013,30017,60017,4321,104321,204321,77,40077,80077,120077,160077,19999,39999,59999,79999,4001,12001,20001,1249,3749,32349,349,1049,33249,80,81,82,83,84,85,86,87,1860,1861,1862,1863,2000000,1999999,6001,22001,38001,70001,170001,300007,1300007,134,135,136,137,138,139,140,141,5,13,21,1031,7,71,135"
 bad=0
 for bin in c01 c02 c03 c04 c06 c07 c08 c10 c11 c12 c13 c14 c16 c17 c18 c09 c09shuttle; do
   ok=0
